@@ -56,6 +56,8 @@ class SWorld:
                 a0 = strip_casts(a[0])
                 if a0 is not None and a0.get('k') == 'Member' and 'EntityString' in (a0.get('m') or ''):
                     self.events.append(('ENTITY', a0['m'])); return 0
+                if a0 is not None and a0.get('k') == 'Member' and (a0.get('m') or '') in ('s_cdataOpenString', 's_cdataCloseString'):
+                    self.events.append(('OPEN',) if 'Open' in a0['m'] else ('CLOSE',)); return 0
                 v = m.ev(a[0])
                 if isinstance(v, int):
                     self.events.append(('RAW', v)); return 0
@@ -75,6 +77,15 @@ class SWorld:
                         self.events.append(('RAW', ord(ch)))
                     return 0
                 raise Unsupported('writer.%s(%r)' % (n, v))
+            if n == 'writeCDATAChar' and len(a) == 4:
+                # a character the encoding has: written raw inside a section (one is opened if the text is outside just now); what an encoding lacks is C04-R5's business
+                v, st = m.ev(a[0]), int(m.ev(a[1]))
+                t = strip_casts(a[3])
+                if m.ev(t):
+                    self.events.append(('OPEN',))
+                    m.assign(t, 0)
+                self.events.append(('RAW', ord(v[st])))
+                return st
             if n in ('flushBuffer', 'flushWriter'):
                 return 0
             raise Unsupported('writer method ' + n)
@@ -191,5 +202,96 @@ def run_rule(res, facts, tier):
 def brief(ev):
     out = ''
     for e in ev:
-        out += chr(e[1]) if e[0] == 'RAW' and 32 <= e[1] < 127 else ('&#%d;' % e[1] if e[0] in ('RAW', 'CHARREF') else ('&%s;' % e[1].replace('m_', '').replace('EntityString', '') if e[0] == 'ENTITY' else '<%s>' % e[0]))
+        out += chr(e[1]) if e[0] == 'RAW' and 32 <= e[1] < 127 else ('&#%d;' % e[1] if e[0] in ('RAW', 'CHARREF') else ('&%s;' % e[1].replace('m_', '').replace('EntityString', '') if e[0] == 'ENTITY' else ('<![CDATA[' if e[0] == 'OPEN' else (']]>' if e[0] == 'CLOSE' else '<%s>' % e[0]))))
     return out
+
+
+def decode_cdata(ev):
+    """-> (text, problem): the character data a parser reads from the events of writeCDATA"""
+    out, inside, run = '', False, ''
+    for e in ev:
+        if e[0] == 'OPEN':
+            if inside:
+                return out, 'a CDATA section is opened inside a CDATA section'
+            inside, run = True, ''
+        elif e[0] == 'CLOSE':
+            if not inside:
+                return out, 'a CDATA section is closed that was not open'
+            inside = False
+        elif e[0] in ('RAW', 'NEWLINE'):
+            ch = chr(e[1]) if e[0] == 'RAW' else '\n'
+            if inside:
+                run += ch
+                if run.endswith(']]>'):
+                    return out, 'the raw sequence "]]>" inside a CDATA section ends it early'
+                if ch == '\r':
+                    return out, 'a literal CR inside a CDATA section (a parser reads LF)'
+            elif ch in '<&' or ch == '\r':
+                return out, 'the character %r is written raw outside a CDATA section' % ch
+            elif ch == '>' and out.endswith(']]'):
+                return out, '"]]>" in character data outside a CDATA section'
+            out += ch
+        elif e[0] == 'CHARREF':
+            if inside:
+                return out, 'a character reference inside a CDATA section is not a reference'
+            out += chr(e[1])
+        elif e[0] == 'ENTITY':
+            if inside:
+                return out, 'an entity reference inside a CDATA section is not a reference'
+            out += decode([e])
+        elif e[0] == 'ERROR':
+            return out, 'ERROR'
+    if inside:
+        return out, 'a CDATA section is left open'
+    return out, None
+
+
+CDATA_TEXTS = [']]>', 'a]]>b', ']]', '>', ']]]]>>', 'x<y&z', 'a\rb', '\r', '\r\n', 'a\nb', ']]>\r]]>', ']\r]>', ']]\r>', 'plain']
+
+
+def run_cdata_rule(res, facts, tier):
+    r = res.rule('C04-R17', 'text of a cdata-section element: FormatterToXMLUnicode::writeCDATA interpreted per (version x writer family) on texts with ]]> CR LF < &, whole and at every '
+                 'cut into two events: sections open and close alternately, no raw "]]>" and no literal CR inside a section, no reference inside a section, nothing special raw '
+                 'outside, and what a parser reads back is the text', floor=80)
+    insts = collections.defaultdict(set)
+    for k in facts.astidx:
+        f = facts.F.get(k)
+        if f and f.get('clsq') == 'xalanc_1_12::FormatterToXMLUnicode':
+            insts[f['cls']].add(k)
+    done = set()
+    for cls, usrs in sorted(insts.items()):
+        ver = '1_1' if 'XML_VERSION_1_1' in cls else '1_0'
+        fam = 'UTF8' if 'XalanUTF8Writer,' in cls else ('UTF16' if 'XalanUTF16Writer,' in cls else 'OTHER')
+        if (ver, fam) in done or 'XalanIndentWriter<' in cls:
+            continue
+        start = [u for u in usrs if facts.F[u]['name'].split('::')[-1] == 'writeCDATA']
+        if not start:
+            continue
+        done.add((ver, fam))
+        fn = facts.ast(start[0])
+        p, _ = predicates(facts, 'CharFunctor' + ver)
+        label = 'XML %s %s writer' % (ver.replace('_', '.'), fam)
+        for s in CDATA_TEXTS:
+            try:
+                runs = [(0, events_of(facts, usrs, p, fn, s))] + [(k, events_of(facts, usrs, p, fn, s[:k]) + events_of(facts, usrs, p, fn, s[k:])) for k in range(1, len(s))]
+            except Unsupported as u:
+                raise AnalysisBroken('FormatterToXMLUnicode::writeCDATA outside the interpreted subset on %r: %s' % (s, u))
+            except Fault as f:
+                r.violation('%s: cdata(%r)' % (label, s), 'fault: %s' % f, common.file_line(fn)); continue
+            bad = None
+            for k, ev in runs:
+                how = 'in one event' if k == 0 else 'as %r then %r' % (s[:k], s[k:])
+                txt, prob = decode_cdata(ev)
+                if prob == 'ERROR':
+                    continue
+                if prob:
+                    bad = (prob.split(' (')[0], 'text %r written %s: %s (%s)' % (s, how, prob, brief(ev))); break
+                if txt.replace('\r\n', '\n') != s.replace('\r\n', '\n') and txt != s:
+                    bad = ('what is read back is not the text', 'text %r written %s reads back as %r (%s)' % (s, how, txt, brief(ev))); break
+            if bad:
+                r.violation('%s, CDATA: %s' % (label, bad[0]), bad[1], common.file_line(fn))
+            else:
+                r.ok('%s, CDATA: text %r' % (label, s), brief(runs[0][1]))
+    if len(done) < 4:
+        raise AnalysisBroken('C04-R17: only %d (version, writer) instantiations of FormatterToXMLUnicode::writeCDATA found' % len(done))
+    return r
